@@ -124,6 +124,7 @@ type Logging struct {
 	Who       string
 	Log       *Log
 	ClosePark *Thread
+	ParkAfter bool // with ClosePark: a second scheduling point ("closed") after Inner.Close returned
 	CloseErr  error
 	closes    atomic.Int32
 	sub       bool
@@ -184,6 +185,9 @@ func (l *Logging) Close() error {
 	}
 	err := l.Inner.Close()
 	l.Log.Add(Event{Who: l.Who, Res: l.Name, Op: "closed", S: fmt.Sprint(n)})
+	if l.ClosePark != nil && l.ParkAfter {
+		l.ClosePark.Park("closed")
+	}
 	if l.CloseErr != nil {
 		return l.CloseErr
 	}
